@@ -15,7 +15,7 @@ import (
 // c02Scaling: "work bounded by a fixed multiple of the input length" for the decoders whose loops do
 // consume input on every step (so the step counter of the name walk does not see them): families of
 // inputs that differ only in how many list elements they hold. Doubling the input may double the work;
-// when it grows by more than 2.6 (a quadratic loop: 4), and the larger input costs more than 30 ms of CPU (linear decoders take 1-4 ms for 64 KiB), the work is not linear.
+// when it grows by more than 2.6 (a quadratic loop: 4), and the larger input costs more than 12 ms of CPU (linear decoders take 1-4 ms for 64 KiB), the work is not linear.
 // The measure is the CPU time of the calling thread (getrusage(RUSAGE_THREAD)), not the wall clock;
 // a verdict needs three repetitions that all show the same picture.
 
@@ -104,7 +104,7 @@ var c02Families = []c02Family{
 	{"apl-items", func(k int) []byte {
 		var b []byte
 		for i := 0; i < k; i++ {
-			b = append(b, 0, 1, 24, 3, 10, byte(i>>8), byte(i))
+			b = append(b, 0, 1, 24, 3, 10, byte(i>>8), byte(i)|1) // no trailing zero octet (RFC 3123)
 		}
 		return rrMsg(42, b)
 	}, 9000},
@@ -154,6 +154,74 @@ var c02Families = []c02Family{
 	}, 4000},
 }
 
+// Mixed lists: k/2 elements of one kind followed by k/2 of another. A decoder that looks back over what it
+// has decoded so far whenever it meets the second kind ("have I seen one of these already?") is linear on
+// every homogeneous list and quadratic here.
+func init() {
+	type optKind struct {
+		name string
+		code uint16
+		data []byte
+	}
+	kinds := []optKind{
+		{"llq", 1, make([]byte, 18)}, {"ul", 2, []byte{0, 0, 0, 60}}, {"nsid", 3, []byte{0xAB}}, {"dau", 5, []byte{8}}, {"dhu", 6, []byte{2}}, {"n3u", 7, []byte{1}},
+		{"subnet", 8, []byte{0, 1, 0, 0}}, {"expire", 9, []byte{0, 0, 0, 1}}, {"cookie", 10, []byte{1, 2, 3, 4, 5, 6, 7, 8}}, {"keepalive", 11, []byte{0, 9}}, {"padding", 12, nil},
+		{"ede", 15, []byte{0, 1}}, {"esu", 4, []byte("a")}, {"zoneversion", 19, []byte{1, 0, 0, 0, 0, 1}}, {"local", 65001, nil},
+	}
+	opt := func(code uint16, data []byte) []byte {
+		b := binary.BigEndian.AppendUint16(nil, code)
+		b = binary.BigEndian.AppendUint16(b, uint16(len(data)))
+		return append(b, data...)
+	}
+	for _, kd := range kinds {
+		kd := kd
+		if kd.code == 65001 {
+			continue
+		}
+		per := 4 + 4 + len(kd.data) // one local option without data and one of this kind
+		maxK := 2 * (64000 / per)
+		for _, order := range []string{"local-then-", "then-local-"} {
+			order := order
+			c02Families = append(c02Families, c02Family{"opt-mixed-" + order + kd.name, func(k int) []byte {
+				var first, second []byte
+				for i := 0; i < k/2; i++ {
+					first = append(first, opt(uint16(65001+i%400), nil)...)
+					second = append(second, opt(kd.code, kd.data)...)
+				}
+				if order == "then-local-" {
+					first, second = second, first
+				}
+				return rrMsg(41, append(first, second...))
+			}, maxK})
+		}
+	}
+	// records of one type followed by records of another (OPT and TSIG are looked for by several helpers)
+	for _, tail := range []struct {
+		name string
+		rr   []byte
+	}{
+		{"opt", []byte{0, 0, 41, 4, 0, 0, 0, 0, 0, 0, 0}},
+		{"tsig-shaped", append([]byte{1, 'k', 0, 0, 250, 0, 255, 0, 0, 0, 0, 0, 23, 1, 'a', 0, 0, 0, 0, 0, 0, 1, 1, 44, 0, 4, 1, 2, 3, 4}, 0x12, 0x34, 0, 0, 0, 0)},
+		{"sig0-shaped", append([]byte{0, 0, 24, 0, 255, 0, 0, 0, 0, 0, 21, 0, 0, 15, 0, 0, 0, 0, 0}, 0, 0, 0, 9, 0, 0, 0, 1, 0, 7, 0, 1, 2)},
+	} {
+		tail := tail
+		per := 17 + len(tail.rr)
+		c02Families = append(c02Families, c02Family{"records-then-" + tail.name + "-records", func(k int) []byte {
+			b := []byte{0x12, 0x34, 0x84, 0, 0, 0}
+			b = binary.BigEndian.AppendUint16(b, uint16(k/2))
+			b = append(b, 0, 0)
+			b = binary.BigEndian.AppendUint16(b, uint16(k/2))
+			for i := 0; i < k/2; i++ {
+				b = append(b, 1, byte('a'+i%26), 0, 0, 1, 0, 1, 0, 0, 0, 60, 0, 4, 10, 0, byte(i>>8), byte(i))
+			}
+			for i := 0; i < k/2; i++ {
+				b = append(b, tail.rr...)
+			}
+			return b
+		}, 2 * (64000 / per)})
+	}
+}
+
 func threadCPU() time.Duration {
 	var ru syscall.Rusage
 	if err := syscall.Getrusage(1 /* RUSAGE_THREAD */, &ru); err != nil {
@@ -196,19 +264,20 @@ func c02Scaling(w *core.W, j int) {
 		w.Progress()
 		if el == nil {
 			w.Count("scaling_inputs_accepted", 1)
+			w.Cover("scaling_family_accepted", f.name)
 		}
 		w.Max("cpu_ms_for_a_64k_list_"+f.name, float64(tl)/1e6)
 		if ts < 0 || tl < 0 {
 			w.Inconclusive("thread-cpu-time-unavailable")
 			return
 		}
-		if tl >= 30*time.Millisecond && float64(tl) >= 2.6*float64(ts) {
+		if tl >= 12*time.Millisecond && float64(tl) >= 2.6*float64(ts) {
 			superlinear++
 			worst = fmt.Sprintf("%d elements (%d octets): %v of CPU; %d elements (%d octets): %v", f.maxK/2, len(small), ts, f.maxK, len(large), tl)
 		}
 	}
 	if superlinear == 3 {
-		w.Violation("C02/work-not-linear/"+f.name, "decoding twice as many list elements costs more than 2.6 times the CPU time (and more than 30 ms for at most 64 KiB of input), in each of three repetitions: "+worst, wit)
+		w.Violation("C02/work-not-linear/"+f.name, "decoding twice as many list elements costs more than 2.6 times the CPU time (and more than 12 ms for at most 64 KiB of input), in each of three repetitions: "+worst, wit)
 	}
 	w.NontrivialStr("scaling", f.name)
 }
